@@ -144,13 +144,16 @@ def unwrap_singletons(c, m, t, lit, p=60):
     return lit
 
 
-def insert_variables(c, m, t, lit, vars_out, p=40, top=True, bare_item=False):
+def insert_variables(c, m, t, lit, vars_out, p=40, top=True, bare_item=False, has_default=False):
     """Replace some sub-literals by variables; records {name: type} in vars_out."""
     m = as_model(m)
     if not bare_item and c.chance(p) and len(vars_out) < 3:
         name = f"v{len(vars_out)}"
-        # declared type: the position's type, sometimes its non-null version
+        # declared type: the position's type, sometimes its non-null version; at a non-null position that
+        # has a default a nullable variable is allowed too (the case the specification defers to run time)
         vt = t if (is_nn(t) or not c.chance(80)) else ["nn", t]
+        if is_nn(t) and has_default and c.chance(128):
+            vt = nullable(t)
         vars_out[name] = vt
         return {"k": "var", "n": name}
     tt = nullable(t) if is_nn(t) else t
@@ -162,7 +165,9 @@ def insert_variables(c, m, t, lit, vars_out, p=40, top=True, bare_item=False):
         return insert_variables(c, m, tt[1], lit, vars_out, p, False, bare_item=True)
     if lit["k"] == "obj" and isinstance(tt, str) and m.kind(tt) == "input":
         ft = {f["name"]: f["type"] for f in m.get(tt)["fields"]}
-        return {"k": "obj", "fs": [[n, insert_variables(c, m, ft.get(n, "Int"), x, vars_out, p, False)]
+        fd = {f["name"]: f["default"] is not None for f in m.get(tt)["fields"]}
+        return {"k": "obj", "fs": [[n, insert_variables(c, m, ft.get(n, "Int"), x, vars_out, p, False,
+                                                       has_default=fd.get(n, False))]
                                    for n, x in lit["fs"]]}
     return lit
 
